@@ -456,4 +456,3 @@ package patch
 //@   panics_only_if rejected: originType == nil || replacement == nil || rv_kind(value_of(replacement)) != reflect.Func
 //@     | || !sig_compatible(rv_type(rt_method_func(originType, methodName)), rv_type(value_of(replacement)))
 //@   ensures_on_panic nothing_written: text_unchanged() && table_inv() && !locked()
-
